@@ -17,7 +17,7 @@ const STACK_CAP: usize = 10_000;
 const TINY: u64 = 10_000;
 
 pub fn run_c07(cx: &Ctx) -> i32 {
-    let k = if cx.quick() { 3 } else { 4 };
+    let k = if cx.quick() { 3 } else { 5 };
     let space = unr_space(k);
     let alphabet = vec!['a', 'b', 'é', '\n'];
     let max_len = 3;
